@@ -12,6 +12,25 @@ import appsim
 _CTX = multiprocessing.get_context("fork")
 
 
+def qualify(cause, sc):
+    """finding signatures name the specific trigger (call site / configuration), so that a known finding hides only
+    the history class it was recorded for and a different violation with the same Spec clause is still reported."""
+    kind = str(sc.get("kind", ""))
+    plan = sc.get("plan") or {}
+    if kind.startswith("closer"):
+        trig = "second-thread-close"
+    elif any("c" in str(v) for k, v in plan.items() if k in ("on_open", "on_reconnect")) or (
+            "c" in str(plan.get("on_error", "")) and any("r" in str(v) for k, v in plan.items() if k in ("on_open", "on_reconnect"))):
+        # close() while the connection is being set up: from on_open/on_reconnect, or from on_error reporting their failure
+        trig = "close-in-open-callback"
+    elif any("c" in str(v) for v in plan.values()):
+        trig = "close-in-callback"
+    else:
+        trig = "no-app-close"
+    disp = "external-dispatcher" if sc.get("ext") else "builtin-dispatcher"
+    return f"{cause}@{trig}@{disp}"
+
+
 def _one(sc):
     t0 = time.time()
     try:
@@ -35,8 +54,24 @@ def run_real_many(scs, jobs=None):
     jobs = jobs or min(16, os.cpu_count() or 4)
     if len(scs) < 40 or jobs <= 1:
         return [_one(sc) for sc in scs]
+    # bounded: once many scenarios got stuck (a spinning or hanging implementation) the remaining ones are skipped —
+    # the stuck ones are already reported as violations, and the check must end in minutes, not hours
+    out, stuck = [], 0
     with _CTX.Pool(jobs, initializer=_init_worker) as pool:
-        return pool.map(_one, scs, chunksize=max(1, min(64, len(scs) // (jobs * 4))))
+        step = max(256, jobs * 32)
+        for i in range(0, len(scs), step):
+            chunk = scs[i:i + step]
+            if stuck > 48:
+                out += [dict(SKIPPED) for _ in chunk]
+                continue
+            part = pool.map(_one, chunk, chunksize=max(1, min(64, len(chunk) // (jobs * 2))))
+            stuck += sum(1 for r in part if r["abort"] in ("steps", "wall-clock", "harness"))
+            out += part
+    return out
+
+
+SKIPPED = {"trace": "", "alive": [], "leaked": [], "outcome": ["skipped"], "abort": "skipped", "stalls": 0, "badframes": 0,
+           "live_max": 0, "lines": 0, "fired_at": None, "wall": 0.0}
 
 
 def spec_line(sc, trace, exact):
@@ -70,6 +105,8 @@ def evaluate(ctx, prop, scs, exact_of=lambda sc: False, cls_of=lambda sc: "scena
     so = out[len(scs):] if model else out
     res = []
     for sc, r, m, s in zip(scs, real, mo, so):
+        if r["abort"] == "skipped":
+            continue
         key = json.dumps(sc, sort_keys=True)
         nt = nontrivial_of(sc) if nontrivial_of else (size_of(sc) > 2)
         ctx.case(key=key, nontrivial=nt, cls=cls_of(sc),
@@ -92,6 +129,7 @@ def evaluate(ctx, prop, scs, exact_of=lambda sc: False, cls_of=lambda sc: "scena
             p, clause, cause = v.split(":", 2)
             if p != prop:
                 continue
+            cause = qualify(cause, sc)
             ctx.violate(clause, cause, sc, "Spec.AppTrace clause holds", f"{v} on real trace {r['trace'][:600]}",
                         size=size_of(sc))
         if extra_check:
